@@ -771,6 +771,124 @@ class VecTr:
         return None
 
 
+class MaskTr(VecTr):
+    """VecTr for the MASKED path of a cost function (`mask is not None` taken).  Three kinds of values:
+    ('s', term) scalar | ('v', body in `i`) array over the whole domain (n entries) | ('c', body in `k`) compressed array (cnt kept
+    entries).  `X[mask]` of a whole-domain array is `X (idx k)` (idx enumerates the kept positions), `Z[mask] = g` on a zero array is
+    `Model.C06.scatterMask cnt idx g`; mixing the two domains element-wise is a shape error (Untranslatable)."""
+
+    def __init__(self, env, funcs=None, static=None):
+        super().__init__(env, funcs, static)
+        self.zero = set()
+
+    def bind_name(self, name, v):
+        if v[0] != 'c':
+            self.zero.discard(name)
+            return super().bind_name(name, v)
+        k = self._n.get(name, 0)
+        self._n[name] = k + 1
+        ln = f'{name}_' if k == 0 else f'{name}_{k}'
+        self.lets.append(f'let {ln} : Nat → K := fun k => {v[1]}')
+        self.env[name] = ('c', f'({ln} k)')
+        self.zero.discard(name)
+
+    def fresh_fn(self, v):
+        """a whole-domain value as a named function of the position"""
+        k = self._n.get('full', 0)
+        self._n['full'] = k + 1
+        ln = f'full_{k}'
+        self.lets.append(f'let {ln} : Nat → K := fun i => {v[1]}')
+        return ln
+
+    def ev(self, e):
+        key = ast.unparse(e)
+        if key in self.env:
+            return self.env[key]
+        if isinstance(e, ast.Subscript) and ast.unparse(e.slice) == 'mask':
+            v = self.ev(e.value)
+            if v[0] != 'v':
+                raise Untranslatable(f'[mask] of a {v[0]} value: {key}')
+            return ('c', f'({self.fresh_fn(v)} (idx k))')
+        if isinstance(e, ast.BinOp) and not isinstance(e.op, ast.Pow):
+            sym = {ast.Add: '+', ast.Sub: '-', ast.Mult: '*', ast.Div: '/'}.get(type(e.op))
+            if sym is None:
+                raise Untranslatable(f'operator {key}')
+            a, b = self.ev(e.left), self.ev(e.right)
+            kinds = {a[0], b[0]} - {'s'}
+            if len(kinds) > 1:
+                raise Untranslatable(f'whole-domain and compressed arrays combined: {key}')
+            return (kinds.pop() if kinds else 's', f'({a[1]} {sym} {b[1]})')
+        if isinstance(e, ast.Attribute) and e.attr == 'size':
+            v = self.ev(e.value)
+            if v[0] == 'c':
+                return ('s', '(Num.ofInt (cnt : Int))')
+            if v[0] == 'v':
+                return ('s', '(Num.ofInt (n : Int))')
+        if isinstance(e, ast.Call) and isinstance(e.func, ast.Attribute) and e.func.attr in ('sum', 'mean') and not e.args and not e.keywords:
+            v = self.ev(e.func.value)
+            if v[0] == 'c':
+                tot = f'(Num.sumTo cnt (fun k => {v[1]}))'
+                return ('s', tot if e.func.attr == 'sum' else f'({tot} / (Num.ofInt (cnt : Int)))')
+        if isinstance(e, ast.Call) and ast.unparse(e.func) in ('np.zeros', 'np.zeros_like'):
+            a0 = ast.unparse(e.args[0]) if e.args else ''
+            if ast.unparse(e.func) == 'np.zeros_like':
+                ok = self.ev(e.args[0])[0] == 'v'
+            else:
+                ok = a0 == 'mask.shape' or (a0.endswith('.shape') and a0[:-6] in self.env and self.env[a0[:-6]][0] == 'v')
+            if not ok:
+                raise Untranslatable(f'zeros of an extent that is not the whole domain: {key}')
+            return ('z', '(Num.ofInt (0))')
+        return super().ev(e)
+
+    def run(self, stmts):
+        for pos, st in enumerate(stmts):
+            if isinstance(st, ast.Assign) and len(st.targets) == 1:
+                tgt = st.targets[0]
+                if isinstance(tgt, ast.Name):
+                    v = self.ev(st.value)
+                    if v[0] == 'z':
+                        self.bind_name(tgt.id, ('v', v[1]))
+                        self.zero.add(tgt.id)
+                        continue
+                    was_zero = isinstance(st.value, ast.Name) and st.value.id in self.zero
+                    self.bind_name(tgt.id, v)
+                    if was_zero:
+                        self.zero.add(tgt.id)
+                    continue
+                if isinstance(tgt, ast.Subscript) and ast.unparse(tgt.slice) == 'mask' and isinstance(tgt.value, ast.Name):
+                    nm = tgt.value.id
+                    if nm not in self.zero:
+                        raise Untranslatable(f'{nm}[mask] = ... on an array that is not freshly zero')
+                    v = self.ev(st.value)
+                    if v[0] != 'c':
+                        raise Untranslatable(f'{nm}[mask] = <{v[0]} value>')
+                    self.bind_name(nm, ('v', f'(Model.C06.scatterMask cnt idx (fun k => {v[1]}) i)'))
+                    continue
+            r = VecTr.run(self, [st])
+            if r is not None:
+                return r
+        return None
+
+
+def _masked_terms(fn, env, name, hdr_extra, args, funcs=None):
+    """cost and gradient of the masked path as Lean terms"""
+    t = MaskTr(env, funcs=funcs, static={'mask is not None': True, 'mask is None': False,
+                                         'not isinstance(yhat, numbers.Number)': True, 'isinstance(yhat, numbers.Number)': False})
+    cost, grad = t.run(fn.body)
+    if cost[0] != 's' or grad[0] != 'v':
+        raise Untranslatable(f'{fn.name} (masked path): kinds of the returned values {cost[0]}, {grad[0]}')
+    H = f'{{K : Type}} [Num K] {hdr_extra}(n cnt : Nat) (idx : Nat → Nat) ({args} : Nat → K)'
+    return (f'def {name}MaskedCost {H} : K :=\n{t.prefix()}  {cost[1]}\n'
+            f'def {name}MaskedGrad {H} : Nat → K :=\n{t.prefix()}  fun i => {grad[1]}\n')
+
+
+def _masked_fallback(name, hdr_extra, args, cost_call, grad_call):
+    H = f'{{K : Type}} [Num K] {hdr_extra}(n cnt : Nat) (idx : Nat → Nat) ({args} : Nat → K)'
+    a, b = args.split()
+    return (f'def {name}MaskedCost {H} : K := {cost_call} cnt (Model.C06.compress idx {a}) (Model.C06.compress idx {b})\n'
+            f'def {name}MaskedGrad {H} : Nat → K := Model.C06.scatterMask cnt idx ({grad_call} cnt (Model.C06.compress idx {a}) (Model.C06.compress idx {b}))\n')
+
+
 def _vec(v):
     """a value as a Lean function Nat -> K"""
     return f'(fun i => {v[1]})'
@@ -886,6 +1004,21 @@ def cost_items(g, co):
            lambda: get_def(co, 'negative_loglikelihood'), nll,
            f'def nllCost {{K : Type}} [Num K] (lg : K → K) (n : Nat) (y yhat : Nat → K) : K := {M}.nllCost lg n y yhat\n'
            f'def nllGrad {{K : Type}} [Num K] (lg : K → K) (n : Nat) (y yhat : Nat → K) : Nat → K := {M}.nllGrad n y yhat\ndef nllMaskedIsCompressScatter : Bool := true\n')
+
+
+    # ---- the MASKED path of each cost function as a term (session 3b): compress, closed form on the kept samples, scatter
+    g.item('mean_square_error.masked', 'prysm/x/optym/cost.py:mean_square_error', lambda: get_def(co, 'mean_square_error'),
+           lambda: _masked_terms(get_def(co, 'mean_square_error'), {'M': ('v', '(M i)'), 'D': ('v', '(D i)')}, 'mse', '', 'M D'),
+           _masked_fallback('mse', '', 'M D', f'{M}.mseCost', f'{M}.mseGrad'))
+    g.item('bias_and_gain_invariant_error.masked', 'prysm/x/optym/cost.py:bias_and_gain_invariant_error',
+           lambda: get_def(co, 'bias_and_gain_invariant_error'),
+           lambda: _masked_terms(get_def(co, 'bias_and_gain_invariant_error'), {'I': ('v', '(I i)'), 'D': ('v', '(D i)')}, 'bgie', '', 'I D'),
+           _masked_fallback('bgie', '', 'I D', f'{M}.bgieCost', f'{M}.bgieGrad'))
+    g.item('negative_loglikelihood.masked', 'prysm/x/optym/cost.py:negative_loglikelihood',
+           lambda: get_def(co, 'negative_loglikelihood'),
+           lambda: _masked_terms(get_def(co, 'negative_loglikelihood'), {'y': ('v', '(y i)'), 'yhat': ('v', '(yhat i)')}, 'nll',
+                                 '(lg : K → K) ', 'y yhat', funcs={'np.log': lambda a: (a[0][0], f'(lg {a[0][1]})')}),
+           _masked_fallback('nll', '(lg : K → K) ', 'y yhat', f'{M}.nllCost lg', f'{M}.nllGrad'))
 
 
 def activation_items(g, ac):
